@@ -37,6 +37,12 @@ Theorem c20_delay_no_offset : forall unt, - bound <= unt <= bound -> subscriber_
 Proof. exact delay_no_offset. Qed.
 Print Assumptions c20_delay_no_offset.
 
+(* the polling loop configures its predictor with the subscriber's (minimum, initial, maximum) intervals, in that order:
+   the estimate starts at the configured initial interval and is clamped to [minimum, maximum] *)
+Theorem c20_run_predictor_config : forall mn init mx, subscriber_predictor mn init mx = newPredictor mn init mx.
+Proof. reflexivity. Qed.
+Print Assumptions c20_run_predictor_config.
+
 Theorem c20_new_predictor_wf : forall mn df mx, 100 <= mn -> mn <= df <= mx -> mx <= bound -> wf (newPredictor mn df mx).
 Proof. exact new_predictor_wf. Qed.
 Print Assumptions c20_new_predictor_wf.
